@@ -21,6 +21,7 @@
            and a few plausible bugs used only to show that the invariants are not vacuous (names starting with Bug).
    Part 3  A transcription of serialize.rs over value trees (numbers are carried as their literal
            text: f64 <-> decimal conversion is Rust's and is trusted; see DESIGN 8).
+   Part 5  A model of indexing.rs (get / get_mut / Index / IndexMut) with its laws; beyond the text of C13.
    Part 4  The enumerator: the bounded input space is enumerated AS STATES (Next appends one token
            of Alphabet); the properties are invariants evaluated on every string.
 
@@ -34,7 +35,8 @@ CONSTANTS Dev,        \* subset of DevNames
 
 DevNames == {"LenientNumber", "MissingComma", "PlusInUnicodeEscape",
              "BugArrayTrailingComma", "BugDepthOffByOne", "BugControlInString", "BugLiteralPrefix",
-             "BugSerRawControl", "BugSerNoQuoteEscape", "BugSerPrettyComma", "BugMemberOrder"}
+             "BugSerRawControl", "BugSerNoQuoteEscape", "BugSerPrettyComma", "BugMemberOrder",
+             "BugIndexLastMatch", "BugGetMutNoInsert"}
 ASSUME Dev \subseteq DevNames
 
 (***************************************************************************)
@@ -357,6 +359,52 @@ Serialize(v)          == Ser(v, -1, 0)
 SerializePretty(v, n) == Ser(v, 0, n)
 
 (***************************************************************************)
+(* Part 5.  indexing.rs (Value::get / get_mut / Index / IndexMut).  Beyond   *)
+(* the text of C13 (DESIGN section 6): checked, reported, never a violation. *)
+(***************************************************************************)
+None    == [some |-> FALSE, v |-> VNull]
+Some(v) == [some |-> TRUE, v |-> v]
+HasKey(o, key)   == \E k \in 1..Len(o.k) : o.k[k] = key
+\* o.iter().find / position: the first member with that name
+FirstKey(o, key) == IF "BugIndexLastMatch" \in Dev
+                    THEN CHOOSE k \in 1..Len(o.k) : o.k[k] = key /\ \A j \in (k + 1)..Len(o.k) : o.k[j] # key
+                    ELSE CHOOSE k \in 1..Len(o.k) : o.k[k] = key /\ \A j \in 1..(k - 1) : o.k[j] # key
+\* <&str as Index>::json_index and <usize as Index>::json_index (0-based)
+GetKey(v, key) == IF v.t = "obj" THEN (IF HasKey(v, key) THEN Some(v.a[FirstKey(v, key)]) ELSE None) ELSE None
+GetIdx(v, n)   == IF v.t = "arr" THEN (IF n < Len(v.a) THEN Some(v.a[n + 1]) ELSE None) ELSE None
+\* json_index_mut: the reference handed out and the container afterwards ("creates a new null value at
+\* the given index if it does not exist in an object")
+GetMutKey(v, key) ==
+  IF v.t # "obj" THEN [ref |-> None, after |-> v]
+  ELSE IF HasKey(v, key) THEN [ref |-> Some(v.a[FirstKey(v, key)]), after |-> v]
+  ELSE IF "BugGetMutNoInsert" \in Dev THEN [ref |-> None, after |-> v]
+  ELSE [ref |-> Some(VNull), after |-> VObj(Append(v.k, key), Append(v.a, VNull))]
+GetMutIdx(v, n) == [ref |-> GetIdx(v, n), after |-> v]
+\* ops::Index: a missing member reads as null; ops::IndexMut panics when json_index_mut gives None
+IndexKey(v, key) == LET r == GetKey(v, key) IN IF r.some THEN r.v ELSE VNull
+IndexIdx(v, n)   == LET r == GetIdx(v, n) IN IF r.some THEN r.v ELSE VNull
+\* `v[key] = x`
+AssignKey(v, key, x) ==
+  LET m == GetMutKey(v, key) IN
+  IF ~m.ref.some THEN [panic |-> TRUE, after |-> v]
+  ELSE [panic |-> FALSE, after |-> VObj(m.after.k, [m.after.a EXCEPT ![FirstKey(m.after, key)] = x])]
+
+ProbeKeys == {<<97>>, <<98>>, <<>>}
+\* laws of the indexing model on a value: get_mut makes the key present, is idempotent, keeps the existing
+\* members and their order, and what it leaves still serialises to JSON denoting it
+IndexLaws(v) ==
+  \A key \in ProbeKeys :
+    LET m == GetMutKey(v, key) IN
+    /\ (v.t = "obj") <=> m.ref.some
+    /\ m.ref.some => /\ GetKey(m.after, key).some
+                      /\ IndexKey(m.after, key) = m.ref.v
+                      /\ GetMutKey(m.after, key).after = m.after
+                      /\ SubSeq(m.after.k, 1, Len(v.k)) = v.k /\ SubSeq(m.after.a, 1, Len(v.a)) = v.a
+                      /\ LET q == Parse(Serialize(m.after)) IN q.ok /\ q.v = m.after
+                      /\ AssignKey(v, key, VBool(TRUE)).after.k = m.after.k
+    /\ ~GetKey(v, key).some => IndexKey(v, key) = VNull
+
+(***************************************************************************)
 (* Part 4.  Enumeration of the bounded input space as states               *)
 (***************************************************************************)
 VARIABLES toks,   \* token indices (into Alphabet) of the string
@@ -402,7 +450,9 @@ Inv_AcceptIffJson == AcceptIffJson(txt, Parse(txt))
 Inv_Value         == ValueDenoted(txt, Parse(txt))
 Inv_DepthScan     == DepthScanAgrees(txt, Parse(txt))
 Inv_SerRoundTrip  == SerRoundTrip(Parse(txt))
+Inv_IndexLaws     == LET p == Parse(txt) IN (p.ok /\ ~p.lone) => IndexLaws(p.v)
 \* all of them (used by the large configurations)
 Inv_C13 == LET p == Parse(txt) IN
-           ParserCorrect(txt, p) /\ DepthScanAgrees(txt, p) /\ SerRoundTrip(p)
+           /\ ParserCorrect(txt, p) /\ DepthScanAgrees(txt, p) /\ SerRoundTrip(p)
+           /\ (p.ok /\ ~p.lone) => IndexLaws(p.v)
 =============================================================================
